@@ -29,6 +29,8 @@ def check(ctx):
     provrules.rule_token_items(ctx, facts, "R1")
     provrules.rule_span_collections(ctx, facts, "R2")
     provrules.rule_span_records(ctx, facts, "R3")
+    provrules.rule_record_fields_final(ctx, facts, "R3")
+    provrules.rule_whole_token_inherited(ctx, facts, "R1")
     provrules.rule_scope_parent(ctx, facts, "R4")
     # "the span set as local parent": setting it always opens a scope of its own (else the enclosing scope's parent is used)
     from .. import scopes
